@@ -215,7 +215,7 @@ def flags(vc):
         def __call__(self, innov, cvr):
             got["args"] = (innov, cvr)
             return r
-    f = vc.new(SF + "SequentialFilter", maneuver_detection=Det(), innovation="nu", innov_cvr="S", flags=FilterFlag.NONE, maneuver_metric=None,
+    f = vc.new(SF + "SequentialFilter", maneuver_detection=Det(), innovation="nu", innov_cvr="S", nis="NIS-OF-THIS-STEP", flags=FilterFlag.NONE, maneuver_metric=None,
                adaptive_estimation=False, initial_orbit_determination=False, maneuver_detected=False)
     f.checkManeuverDetection()
     has = FilterFlag.MANEUVER_DETECTION in f.flags
